@@ -16,6 +16,7 @@ import (
 type vFakeTransport struct {
 	sent  [][]byte
 	reply func(attempt int, req []byte) ([]byte, error)
+	last  []byte // the previous reply as handed to the library
 }
 
 func (t *vFakeTransport) Address() net.Addr { return nil }
@@ -25,7 +26,14 @@ func (t *vFakeTransport) Send(ctx context.Context, b []byte) ([]byte, error) {
 	cp := make([]byte, len(b))
 	copy(cp, b)
 	t.sent = append(t.sent, cp)
-	return t.reply(len(t.sent), cp)
+	// the real transport returns a slice of its single receive buffer, so the bytes of
+	// the previous reply do not survive the next exchange: overwrite them
+	for i := range t.last {
+		t.last[i] = 0xA5
+	}
+	r, err := t.reply(len(t.sent), cp)
+	t.last = r
+	return r, err
 }
 
 var vErrLost = errors.New("fake transport: no reply")
